@@ -104,9 +104,10 @@ Qed.
 Ltac gtp_step wv cv Hpp Hc Hb :=
   assert (get_time_position wv = (Ok (a_pos wv), fx_gtp wv)) by (apply (gtp_run wv cv); [exact Hpp|exact Hc|exact Hb]).
 
-Theorem pause_agreement f c w :
+Theorem pause_agreement_full f c w :
   settled_on w c -> pstate w = Playing -> a_fresh w = false ->
   let w' := run_world shuf f w [Pause; Deliver; Deliver] in
+  settled_on w' c /\ stable w w' /\
   current w' = Some c /\ pstate w' = Paused /\ pending w' = None /\ queue w' = []
   /\ a_uri w' = Some (trk c) /\ a_state w' = Paused /\ World.tl w' = World.tl w.
 Proof.
@@ -136,12 +137,24 @@ Proof.
   assert (G3 : get_time_position w3 = (Ok (a_pos w3), fx_gtp w3)).
   { apply (gtp_run w3 c); [exact Hpp|exact Hc|exact Hb]. }
   rewrite (stepw_eq shuf f Deliver w2' RNone w3 _ _ (run_op_bind_none _ w2' tt w3 D2) G3).
+  split; [constructor; try reflexivity; try assumption; try (apply Hbx; reflexivity);
+           try (cbn; split; first [reflexivity|assumption]); try (cbn; assumption)|].
+  split; [unfold stable; repeat split; try reflexivity; try assumption;
+           try (intros Hs0; cbn; rewrite ?Hs0; cbn; rewrite ?Hs0; first [reflexivity|assumption])|].
   repeat split; try reflexivity; assumption.
 Qed.
 
-Theorem resume_agreement f c w :
+Theorem pause_agreement f c w :
+  settled_on w c -> pstate w = Playing -> a_fresh w = false ->
+  let w' := run_world shuf f w [Pause; Deliver; Deliver] in
+  current w' = Some c /\ pstate w' = Paused /\ pending w' = None /\ queue w' = []
+  /\ a_uri w' = Some (trk c) /\ a_state w' = Paused /\ World.tl w' = World.tl w.
+Proof. intros. cbv zeta. eapply proj2. eapply proj2. eapply pause_agreement_full; eassumption. Qed.
+
+Theorem resume_agreement_full f c w :
   settled_on w c -> pstate w = Paused -> a_fresh w = false ->
   let w' := run_world shuf f w [Resume; Deliver; Deliver; Deliver] in
+  settled_on w' c /\ stable w w' /\
   current w' = Some c /\ pstate w' = Playing /\ pending w' = None /\ queue w' = []
   /\ a_uri w' = Some (trk c) /\ a_state w' = Playing /\ World.tl w' = World.tl w.
 Proof.
@@ -178,8 +191,19 @@ Proof.
   assert (D3' : (deliver shuf f ;; ret RNone)%M w3' = (Ok RNone, w4)).
   { apply (run_op_bind_none _ w3' tt w4). exact D3. }
   rewrite (stepw_eq shuf f Deliver w3' RNone w4 _ _ D3' G4).
+  split; [constructor; try reflexivity; try assumption; try (apply Hbx; reflexivity);
+           try (cbn; split; first [reflexivity|assumption]); try (cbn; assumption)|].
+  split; [unfold stable; repeat split; try reflexivity; try assumption;
+           try (intros Hs0; cbn; rewrite ?Hs0; cbn; rewrite ?Hs0; first [reflexivity|assumption])|].
   repeat split; try reflexivity; assumption.
 Qed.
+
+Theorem resume_agreement f c w :
+  settled_on w c -> pstate w = Paused -> a_fresh w = false ->
+  let w' := run_world shuf f w [Resume; Deliver; Deliver; Deliver] in
+  current w' = Some c /\ pstate w' = Playing /\ pending w' = None /\ queue w' = []
+  /\ a_uri w' = Some (trk c) /\ a_state w' = Playing /\ World.tl w' = World.tl w.
+Proof. intros. cbv zeta. eapply proj2. eapply proj2. eapply resume_agreement_full; eassumption. Qed.
 
 (* ---- stop *)
 Definition fx_env_stop (w : world) : world :=
